@@ -96,7 +96,7 @@ func runC17(t *testing.T, seed uint64, planJSON []byte, tier string) (res *Resul
 			mode = []string{"enum", "enum", "foreign"}[seed%3]
 		}
 		ap := genATPlan(seed, tier, "mixed")
-		ap.Cfg.ServerVersion = "8.0.30"
+		ap.Cfg.ServerVersion = []string{"8.0.30", "8.0.28", "8.0.30", "5.7.40"}[(seed/3)%4]
 		plan = &C17Plan{Mode: mode, Cfg: ap.Cfg, Opts: ap.Opts, Tables: ap.Tables, Episodes: ap.Episodes[:1]}
 		plan.Episodes[0].StopOnErr = true
 		// XA branches of one global transaction do not share row locks: keep the
